@@ -1,8 +1,8 @@
 (* CodecEncCorr.v — correspondence cases for the encoder family (C08, C01): what the
    implementation was observed to do, compared with the model by vm_compute. *)
 From Coq Require Import String List NArith ZArith Bool.
-From J5V.lib Require Import Outcome Corr Json JsonPrint Base64 Civil.
-From J5V.model Require Import CodecTypes CodecEnc.
+From J5V.lib Require Import Outcome Corr Json JsonPrint Base64 Civil Decimal.
+From J5V.model Require Import CodecTypes CodecEnc CodecEncDec.
 Import ListNotations.
 Local Open Scope N_scope.
 Local Open Scope bool_scope.
@@ -75,7 +75,29 @@ Inductive enc_case :=
 | CDateFmt (y mo d : Z) (out : bytes)
 | CDateParse (s : bytes) (r : option (Z * Z * Z))
 (* strict_parse against encoding/json.Valid *)
-| CValid (s : bytes) (valid : bool).
+| CValid (s : bytes) (valid : bool)
+(* decimal.NewFromString(s) then the exponent bound and String(): what decimalFromString stores *)
+| CDecimal (s : bytes) (r : option bytes)
+(* Codec.ProtoToJSON then Codec.JSONToProto into a fresh message (default codec).
+   pf / pt: strconv.ParseFloat and time.Parse results for the literals of [out];
+   back: the decoded message (None: the decoder returned an error) *)
+| CRound (e : env) (root : bytes) (m : msg)
+         (floats : list (bool * N * bytes)) (inner : list (bytes * bytes * option bytes))
+         (pf : list (bytes * (option N * option N))) (pt : list (bytes * (Z * Z)))
+         (strict : bool) (out : bytes) (back : option msg).
+
+Fixpoint table_get {A} (tbl : list (bytes * A)) (k : bytes) : option A :=
+  match tbl with
+  | [] => None
+  | (k', v) :: r => if bytes_eqb k k' then Some v else table_get r k
+  end.
+
+(* strconv.ParseFloat results of one document: literal -> (64-bit parse, 32-bit parse) *)
+Definition float_parse_table (tbl : list (bytes * (option N * option N))) (is32 : bool) (s : bytes) : option N :=
+  match table_get tbl s with
+  | Some (b64, b32) => if is32 then b32 else b64
+  | None => None
+  end.
 
 Definition zz_eqb (a b : Z * Z) : bool := Z.eqb (fst a) (fst b) && Z.eqb (snd a) (snd b).
 Definition zzz_eqb (a b : Z * Z * Z) : bool :=
@@ -131,4 +153,21 @@ Definition enc_check (c : enc_case) : bool :=
   | CDateFmt y mo d out => bytes_eqb (date_string y mo d) out
   | CDateParse s r => option_eqb zzz_eqb (date_from_string s) r
   | CValid s valid => Bool.eqb (is_some (strict_parse s)) valid
+  | CDecimal s r => opt_bytes_eqb (dec_normalise s) r
+  | CRound e root m floats inner pf pt strict out back =>
+      oneofs_flat_b e &&
+      match encode (float_table floats) (inner_table inner) e root m with
+      | Ok b =>
+          (if strict then bytes_eqb b out
+           else match strict_parse b, strict_parse out with
+                | Some x, Some y => jv_eq_perm (S (length out)) x y
+                | _, _ => false
+                end) &&
+          match decode_text (float_parse_table pf) (table_get pt) e root out, back with
+          | Ok m', Some mb => msg_eqb m' mb
+          | Err _, None => true
+          | _, _ => false
+          end
+      | _ => false
+      end
   end.
